@@ -6,7 +6,7 @@ LEVEL = "model_checking"
 TECHNIQUE = "CBMC bounded symbolic execution of scan.c _yr_scan_verify_chained_string_match (re-joining of split patterns, all delivery sequences in the bound) and of re.c yr_re_fast_exec on the real code emitted by the real compiler for hex templates (all data up to N bytes), against a token-level reference matcher; unwind bounds derived from the template"
 ASSUMPTIONS = ["program dimension: hex templates without alternatives (bytes, ??, ?X, X?, ~XX, ~?X, [n], [n-m]); patterns with alternatives run on the full regex VM (yr_re_exec) whose symbolic execution is intractable (DESIGN P7) - outside",
                "forward matching from the pattern start (atom at the start of the template)",
-               "split patterns: the re-joining step (H3) is checked on a 3-piece chain for every sequence of 4 (thorough: 5) piece occurrences delivered in scanner order (ascending end position, every piece being its own atom); the splitting itself (yr_re_ast_split_at_chaining_point) and the search for each piece through the regex VM are outside",
+               "split patterns: the re-joining step (H3) is checked on a 3-piece chain for every sequence of 4 piece occurrences and every sequence of 5 that can contain a complete chain (thorough: every sequence of 5) delivered in scanner order (ascending end position, every piece being its own atom); the splitting itself (yr_re_ast_split_at_chaining_point) and the search for each piece through the regex VM are outside",
                "data <= 6 bytes"]
 LEVEL_TEXT = "Bounded model checking of the fast matcher against the documented hex semantics for every data buffer in the bound, per template."
 LEVEL_NOTE = "; ".join(ASSUMPTIONS)
@@ -96,8 +96,7 @@ def harnesses(ctx, tier):
                 i += 1
         return i >= 3
     hs += [chain_h(4, q) for q in range(81)]
-    if tier == "thorough":
-        hs += [chain_h(5, q) for q in range(243) if has_chain(5, q)]
+    hs += [chain_h(5, q) for q in range(243) if tier == "thorough" or has_chain(5, q)]
     if tier == "thorough":
         for n, p in THOROUGH:
             h = fast_h(n, p, 6)
